@@ -539,3 +539,36 @@ def direct_c08(case, obs):
         if sorted(sk['nodes']) != sorted(nodes) or sorted(tuple(sorted(e)) for e in sk['edges']) != sorted(tuple(sorted((a, b))) for a, b, d in occ):
             v.append({'signature': 'skeleton-differs-from-occupied-forest:' + model, 'detail': {'skeleton': sk['edges'], 'occupied': [(a, b) for a, b, d in occ]}})
     return _dedup(v)
+
+
+def direct_c03(case, obs):
+    """time clauses of C03 on a run of a shipped model"""
+    if obs.get('skipped'):
+        return []
+    model = case['model']
+    if obs['exception']:
+        return [{'signature': 'run-raised:' + model + ':' + obs['exception'].split(':')[0], 'detail': obs['exception']}]
+    v = []
+    for en in obs['entries']:
+        if en['t'] != en['clock']:
+            v.append({'signature': 'clock-differs-from-handler-time:shipped:' + ('posted' if en['posted'] else 'stochastic'), 'detail': en})
+    taps = obs['snaps'][1:]
+    last = 0.0
+    for s in taps:
+        if s['t'] < last:
+            v.append({'signature': 'tap-time-ran-backwards:shipped', 'detail': {'t': s['t'], 'prev': last, 'event': s['name']}})
+        last = max(last, s['t'])
+        if obs['time'] is not None and s['t'] > obs['time']:
+            v.append({'signature': 'event-after-end-time:shipped', 'detail': {'t': s['t'], 'TIME': obs['time']}})
+    st_taps = [s for s in taps if not s.get('posted')]
+    st_ent = [e for e in obs['entries'] if not e['posted']]
+    if len(st_taps) != len(st_ent):
+        v.append({'signature': 'tap-count-differs-from-events:shipped', 'detail': {'taps': len(st_taps), 'event_function_calls': len(st_ent)}})
+    else:
+        for s, e in zip(st_taps, st_ent):
+            if s['t'] != e['t'] or s['e'] != e['e']:
+                v.append({'signature': 'tap-time-differs-from-event-time:shipped', 'detail': {'tap': [s['t'], s['e']], 'event': [e['t'], e['e']]}})
+                break
+    if obs['events'] != len(taps):
+        v.append({'signature': 'event-count-mismatch:shipped', 'detail': {'EVENTS': obs['events'], 'taps': len(taps)}})
+    return _dedup(v)
